@@ -33,9 +33,9 @@ def parseSnaps : List String → Option (List (Nat × Nat))
     | _, _, _ => none
   | _ => none
 
-/-- Protective cap shared with the adapter: a call that would request more than 256 MiB is
+/-- Protective cap shared with the adapter: a call that would request more than 16 MiB is
     not executed; the trace ends with `huge`. -/
-def hugeAlloc : Nat := 268435456
+def hugeAlloc : Nat := 16777216
 
 /-- All reads until a final outcome (eof / ueof / ioerr / panic); `err` results continue. -/
 partial def trace (pat : Array Bool) (snaps : List (Nat × Nat)) (i : Nat) (r : Reader) (acc : Array Out) : Array Out × Bool :=
